@@ -165,7 +165,52 @@ theorem filter_terminates (t : PTree) (perms : List Nat) (rank : Nat → Nat)
               · simp
               · exact ih tgt (by have := hred n nd tgt hnd h0 htgt; omega)
 
+theorem received_of_sublist {a b : List Tok} (h : a.Sublist b) : ∀ id ∈ received a, id ∈ received b := by
+  induction h with
+  | slnil => intro id hid; exact hid
+  | cons x _ ih =>
+    intro id hid
+    cases x <;> simp [received, ih id hid]
+  | cons_cons x _ ih =>
+    intro id hid
+    cases x with
+    | node n =>
+      simp only [received, List.mem_cons] at hid ⊢
+      rcases hid with h | h
+      · left; exact h
+      · right; exact ih id h
+    | redirect => simpa [received] using ih id (by simpa [received] using hid)
+    | up => simpa [received] using ih id (by simpa [received] using hid)
+
+theorem received_stripRoot (ts : List Tok) : ∀ id ∈ received (stripRoot ts), id ∈ received ts := by
+  intro id hid
+  unfold stripRoot at hid
+  split at hid
+  · rename_i r
+    have := received_of_sublist (List.dropLast_sublist r) id hid
+    simp [received, this]
+  · exact hid
+
 /-! ### merge -/
+
+/-- an injected proxy node in the merged root comes from the injection list -/
+theorem proxy_mem_foldl_inject (proxy : List (String × Nat)) :
+    ∀ (root : List MNode) (n : String) (i : Nat), MNode.proxy n i ∈ proxy.foldl inject root →
+      (n, i) ∈ proxy ∨ MNode.proxy n i ∈ root := by
+  induction proxy with
+  | nil => intro root n i h; right; simpa using h
+  | cons p rest ih =>
+    intro root n i h
+    simp only [List.foldl_cons] at h
+    rcases ih _ n i h with h1 | h1
+    · left; simp [h1]
+    · simp only [inject, List.mem_append, List.mem_filter, List.mem_singleton] at h1
+      rcases h1 with ⟨hm, _⟩ | hm
+      · right; exact hm
+      · left
+        cases hm
+        simp
+
 
 def isProxyName (proxy : List (String × Nat)) (m : MNode) : Bool := (proxy.map Prod.fst).contains m.name
 
